@@ -1017,12 +1017,17 @@ pub const PEER_OPS: &[&str] = &[
 pub const PEER_NPARAMS: i64 = 16 * PEER_OPS.len() as i64;
 
 /// (sockaddr_un bytes, address length handed to bind); length 0 = do not bind
-fn peer_addr(kind: &str) -> ([u8; 110], u32) {
+/// `salt` varies the name bytes: abstract names live in one namespace shared by all probe processes
+fn peer_addr(kind: &str, salt: u64) -> ([u8; 110], u32) {
     let mut a = [0u8; 110];
     a[0] = 1; // AF_UNIX, little endian u16
     let fill = |a: &mut [u8; 110], from: usize, n: usize| {
-        for (i, b) in a[from..from + n].iter_mut().enumerate() {
-            *b = b'a' + (i % 26) as u8;
+        let mut x = salt.wrapping_mul(0x9E37_79B9_7F4A_7C15) | 1;
+        for b in &mut a[from..from + n] {
+            x ^= x << 13;
+            x ^= x >> 7;
+            x ^= x << 17;
+            *b = b'!' + (x % 90) as u8;
         }
     };
     let len = match kind {
@@ -1085,14 +1090,21 @@ pub fn s_arg_peer(cx: &mut Cx) {
         const _: () = assert!(core::mem::size_of::<UnixListener>() == 4);
         unsafe { *(core::ptr::from_ref(&l).cast::<i32>()) }
     };
-    let (addr, alen) = peer_addr(kind);
     let mut srv = [0u8; 110];
     srv[0] = 1;
     srv[2..5].copy_from_slice(b"srv");
     let c = unsafe { socket(1, 1 | 0o2_000_000, 0) };
-    let ok = c >= 0
-        && (alen == 0 || unsafe { bind(c, addr.as_ptr(), alen) } == 0)
-        && unsafe { connect(c, srv.as_ptr(), 6) } == 0;
+    // a short abstract name may be taken by another probe process at this moment: try other bytes
+    let mut bound = false;
+    for attempt in 0..40u64 {
+        let salt = (cx.pid as u64) << 20 ^ cx.serial << 8 ^ attempt;
+        let (addr, alen) = peer_addr(kind, salt);
+        if alen == 0 || unsafe { bind(c, addr.as_ptr(), alen) } == 0 {
+            bound = true;
+            break;
+        }
+    }
+    let ok = c >= 0 && bound && unsafe { connect(c, srv.as_ptr(), 6) } == 0;
     if !ok {
         cx.skip(7);
         unsafe {
